@@ -263,6 +263,13 @@ func CatchTimeout(d time.Duration, f func()) (panicked bool, hang bool, val inte
 	case <-done:
 		return panicked, false, val
 	case <-time.After(d):
+	}
+	// not back after d: on a loaded machine a descheduled goroutine is not a hang -- wait five times
+	// longer before calling it one (a real non-termination costs 6*d once)
+	select {
+	case <-done:
+		return panicked, false, val
+	case <-time.After(5 * d):
 		return false, true, nil
 	}
 }
